@@ -17,6 +17,11 @@ PROVED
          The proof follows `analyze` → `exWriteQuery` → `exQuery` → `finishBranches` → `endOfQueryCleanup` → `cleanupGroup` →
          `cleanupItem` → `addColumnLineage` → `expandWildcard` → `compose` with an invariant (`ColumnsExact.Wired`).
          `dev_unknown_qualifier_positional`: the one shape excluded inside this syntax class, with its witness.
+         The same for statements WITH a column list (`pairs_exact_collist_partial`, `owners_exact_collist_partial`,
+         `edges_exact_collist_partial`, `analyze_total_collist_partial`; `INSERT INTO T (c1..cn) <q>`, `CREATE VIEW T (c1..cn)
+         AS <q>`, n = number of select items, names pairwise different, `T` not read): item `i` is wired to `ci` BY POSITION
+         (`ColumnsExact.specPairsPos`).  And `select_moves_no_column_partial`: the holder of a plain SELECT over base
+         tables is exactly the reads of its FROM clause.
 
 NOT PROVED (kept as a comment at the end): `pairs_exact` for all of `Frag02` — see the list there.  What ties the rest to the
 code is the SQL‑level correspondence of `harness/c02.py`.
@@ -331,6 +336,75 @@ theorem select_moves_no_column_partial (env : Env) (silent : Bool) (s : Stmt) (h
   have := reads_edges (fromTabs env frm) (fromTabs_isTabRef env frm) u v
   exact ⟨this.2 he, this.1.mp he⟩
 
+/-! #### an explicit column list: wiring BY POSITION
+
+`INSERT INTO T (c1, …, cn) <q>` / `CREATE VIEW T (c1, …, cn) AS <q>` (`fragStmtCols`): `<q>` as above, not reading `T`, no
+qualifier denoting `T`, exactly as many listed columns as select items, the listed names pairwise different after
+normalisation.  Item `i` is wired to the `i`‑th listed column whatever the item is called (`specPairsPos`); an item
+without source column (a literal) wires nothing, but `T` owns every listed column all the same (`listedOwners`). -/
+
+theorem analyze_total_collist_partial (env : Env) (silent : Bool) (s : Stmt) (hp : env.prov.truthy = false)
+    (hs : fragStmtCols env s = true) : ∃ g, analyze env silent s = .ok g := by
+  obtain ⟨g, hg, _⟩ := analyze_exact_cols env silent s hp hs
+  exact ⟨g, hg⟩
+
+/-- **`pairs_exact` with an explicit column list**: the LINEAGE edges are exactly the pairs (source column of a reference of
+    item `i`, `i`‑th listed column of the written table) -/
+theorem pairs_exact_collist_partial (env : Env) (silent : Bool) (s : Stmt) (g : LGraph) (hp : env.prov.truthy = false)
+    (hs : fragStmtCols env s = true) (h : analyze env silent s = .ok g) (u v : Node) :
+    ((u, v) ∈ g.edges ∧ g.ety u v = some .lineage) ↔
+      (u, v) ∈ specPairsPos env (stmtTarget s) (stmtCols s) (stmtItems s) (stmtFrom s) := by
+  obtain ⟨g', hg', hx⟩ := analyze_exact_cols env silent s hp hs
+  rw [h] at hg'
+  cases hg'
+  exact hx.lineage u v
+
+/-- the same, written out -/
+theorem pairs_exact_collist_unfolded_partial (env : Env) (silent : Bool) (s : Stmt) (g : LGraph)
+    (hp : env.prov.truthy = false) (hs : fragStmtCols env s = true) (h : analyze env silent s = .ok g) (u v : Node) :
+    ((u, v) ∈ g.edges ∧ g.ety u v = some .lineage) ↔
+      ∃ e a k c, (Item.mk e a k, c) ∈ (stmtItems s).zip (stmtCols s) ∧ ∃ r ∈ refs e,
+        u = (srcCol env.importDefault (fromTabs env (stmtFrom s)) (normRef r)).key ∧
+        v = .col ((mkTable env (stmtTarget s) none).printed ++ "." ++ Ident.escapeS c)
+              (some (mkTable env (stmtTarget s) none).d) := by
+  rw [pairs_exact_collist_partial env silent s g hp hs h, mem_specPairsPos]
+
+/-- HAS_COLUMN edges with a column list: the written table owns every LISTED column (wired or not), every source column
+    hangs from its owner, nothing else -/
+theorem owners_exact_collist_partial (env : Env) (silent : Bool) (s : Stmt) (g : LGraph) (hp : env.prov.truthy = false)
+    (hs : fragStmtCols env s = true) (h : analyze env silent s = .ok g) (u v : Node) :
+    ((u, v) ∈ g.edges ∧ g.ety u v = some .hasColumn) ↔
+      (u, v) ∈ listedOwners env (stmtTarget s) (stmtCols s) ∨
+      (u, v) ∈ specOwners (specPairsPos env (stmtTarget s) (stmtCols s) (stmtItems s) (stmtFrom s)) := by
+  obtain ⟨g', hg', hx⟩ := analyze_exact_cols env silent s hp hs
+  rw [h] at hg'
+  cases hg'
+  exact hx.hasColumn u v
+
+/-- … and there is no other edge than these and the alias edges of the table references -/
+theorem edges_exact_collist_partial (env : Env) (silent : Bool) (s : Stmt) (g : LGraph) (hp : env.prov.truthy = false)
+    (hs : fragStmtCols env s = true) (h : analyze env silent s = .ok g) (u v : Node) :
+    (u, v) ∈ g.edges ↔
+      (u, v) ∈ specPairsPos env (stmtTarget s) (stmtCols s) (stmtItems s) (stmtFrom s) ∨
+      ((u, v) ∈ listedOwners env (stmtTarget s) (stmtCols s) ∨
+        (u, v) ∈ specOwners (specPairsPos env (stmtTarget s) (stmtCols s) (stmtItems s) (stmtFrom s))) ∨
+      aliasPair (fromTabs env (stmtFrom s)) u v := by
+  obtain ⟨g', hg', hx⟩ := analyze_exact_cols env silent s hp hs
+  rw [h] at hg'
+  cases hg'
+  constructor
+  · intro he
+    have hy := Graph.ety_of_mem g u v he
+    cases ht : g.etype u v with
+    | lineage => exact Or.inl ((hx.lineage u v).mp ⟨he, by rw [hy, ht]⟩)
+    | hasColumn => exact Or.inr (Or.inl ((hx.hasColumn u v).mp ⟨he, by rw [hy, ht]⟩))
+    | hasAlias => exact Or.inr (Or.inr ((hx.hasAlias u v).mp ⟨he, by rw [hy, ht]⟩))
+    | rename => exact absurd (by rw [hy, ht]) (hx.noRename u v he)
+  · rintro (h1 | h1 | h1)
+    · exact ((hx.lineage u v).mpr h1).1
+    · exact ((hx.hasColumn u v).mpr h1).1
+    · exact ((hx.hasAlias u v).mpr h1).1
+
 /-! #### reading the specification (all by `ColumnsExact`): keys of target and source columns, what a qualifier denotes -/
 
 /-- target column key: `<written table>.<item name>` owned by the written table -/
@@ -405,6 +479,16 @@ def exSelf : Stmt :=
       [.mk (.table ["s", "t"] none false) [], .mk (.table ["s", "u"] none false) []]
       none [] none) false
 
+/-- `insert into s.tgt (p, q, r) select x.a, 1 as one, b + c as f from s1.t1 x`: by position — `a → p`, nothing to `q`,
+    `b, c → r`; the item names `a`, `one`, `f` play no role -/
+def exCols : Stmt :=
+  .insert .insertInto false ["s", "tgt"] (some ["p", "q", "r"])
+    (.select false
+      [.mk (.col ["x"] "a") none false,
+       .mk (.lit "1") (some "one") true,
+       .mk (.bin "+" (.col [] "b") (.col [] "c")) (some "f") true]
+      [.mk (.table ["s1", "t1"] (some "x") false) []] none [] none) false
+
 /-- the LINEAGE edges of an analysis result, in graph order -/
 def lineageEdges (r : Except Err LGraph) : List (Node × Node) :=
   match r with
@@ -459,6 +543,17 @@ example : lineageEdges (analyze {} false exSelf) =
 example : specPairs {} (stmtTarget exSelf) (stmtItems exSelf) (stmtFrom exSelf) =
     lineageEdges (analyze {} false exSelf) := by decide +kernel
 
+example : fragStmtCols {} exCols = true := by decide +kernel
+
+example : lineageEdges (analyze {} false exCols) =
+    [(.col "s1.t1.a" (some (.table "s1" "t1")), .col "s.tgt.p" (some (.table "s" "tgt"))),
+     (.col "s1.t1.b" (some (.table "s1" "t1")), .col "s.tgt.r" (some (.table "s" "tgt"))),
+     (.col "s1.t1.c" (some (.table "s1" "t1")), .col "s.tgt.r" (some (.table "s" "tgt")))] := by
+  decide +kernel
+
+example : specPairsPos {} (stmtTarget exCols) (stmtCols exCols) (stmtItems exCols) (stmtFrom exCols) =
+    lineageEdges (analyze {} false exCols) := by decide +kernel
+
 /-- Why a qualifier may not denote a written table that is not read (`avoidOf`): such a reference makes the written table
     own SOURCE columns, so `write_columns` can reach the number of select items in the middle of the loop and the rest of
     the items is wired by POSITION.  `insert into foo select foo.x as a, foo.y as b, 1 as l1, foo.z as c from bar`: after two
@@ -506,14 +601,16 @@ end endToEnd
     theorem pairs_exact (s : Stmt) (h : Frag02 s) : pairs (Runner.eval c md [s]) = Spec.colflow env s
   where `Spec.colflow` is the denotational dataflow of Appendix B.
 
-  Proved: the restriction `pairs_exact_flat_partial` (§5) to `ColumnsExact.fragStmt`, stated on the LINEAGE edges of the
-  statement holder `analyze env silent s` against `ColumnsExact.specPairs`.  Missing for the full statement:
+  Proved: the restrictions `pairs_exact_flat_partial` (§5) to `ColumnsExact.fragStmt` and `pairs_exact_collist_partial` to
+  `ColumnsExact.fragStmtCols`, stated on the LINEAGE edges of the statement holder `analyze env silent s` against
+  `ColumnsExact.specPairs` / `specPairsPos`.  Missing for the full statement:
     * inside one flat block: an unqualified `*` over several relations (one source per relation, in `amValues` order),
       unqualified references over several table references that all denote the SAME relation, ambiguous written aliases,
       a qualifier denoting a written table that is not read (`dev_unknown_qualifier_positional`: the model and the code
       wire by position there);
-    * an explicit column list, a metadata provider (target columns by POSITION, `positional_wiring`; wildcard expansion), set
-      operations (union barriers; D6), a plain SELECT (no target: `cleanupGroup` adds nothing);
+    * a column list whose length differs from the number of select items or that goes with a self‑reading statement, a
+      metadata provider (target columns of an INSERT by POSITION from the provider; wildcard expansion), set operations
+      (union barriers; D6);
     * nested queries (derived tables, CTEs, subqueries in expressions): the same invariant through the 30‑function mutual
       recursion of `Model/Walk.lean`, with sub‑holders composed by `composeSub`; a select‑item subquery is not modelled at
       all (`_get_column_from_subquery`);
